@@ -216,14 +216,20 @@ impl<'a> AtRuleDest<'a> {
     }
 }
 
+impl AtRuleDest<'_> {
+    /// Move the declarations collected so far into the body, so they
+    /// stay in front of whatever is pushed next.
+    fn flush_rule(&mut self) {
+        flush_rule(&mut self.rule, &mut self.body);
+    }
+}
+
 impl Drop for AtRuleDest<'_> {
     fn drop(&mut self) {
-        let mut body = std::mem::take(&mut self.body);
+        self.flush_rule();
+        let body = std::mem::take(&mut self.body);
         let name = std::mem::take(&mut self.name);
         let args = std::mem::replace(&mut self.args, Value::Null);
-        if let Some(rule) = self.rule.take() {
-            body.insert(0, rule.into());
-        }
         let result = AtRule::new(name, args, Some(body));
         if let Err(err) = self.parent.push_item(result.into()) {
             eprintln!("Error ending AtRuleDest: {err}");
@@ -269,6 +275,7 @@ impl CssDestination for AtRuleDest<'_> {
     }
 
     fn push_import(&mut self, import: Import) {
+        self.flush_rule();
         self.body.push(import.into());
     }
 
@@ -281,6 +288,9 @@ impl CssDestination for AtRuleDest<'_> {
     }
 
     fn push_item(&mut self, item: Item) -> Result {
+        if !matches!(item, Item::Separator) {
+            self.flush_rule();
+        }
         self.body.push(match item {
             Item::Comment(c) => c.into(),
             Item::Import(i) => i.into(),
@@ -335,16 +345,20 @@ impl<'a> AtMediaDest<'a> {
     }
 }
 
+impl AtMediaDest<'_> {
+    /// Move the declarations collected so far into the body, so they
+    /// stay in front of whatever is pushed next.
+    fn flush_rule(&mut self) {
+        flush_rule(&mut self.rule, &mut self.body);
+    }
+}
+
 impl Drop for AtMediaDest<'_> {
     fn drop(&mut self) {
-        let mut body = std::mem::take(&mut self.body);
+        self.flush_rule();
+        let body = std::mem::take(&mut self.body);
         let args =
             std::mem::replace(&mut self.args, MediaArgs::Name(String::new()));
-        if let Some(rule) = self.rule.take()
-            && !rule.body.is_empty()
-        {
-            body.insert(0, rule.into());
-        }
         let result = MediaRule::new(args, body);
         if let Err(err) = self.parent.push_item(result.into()) {
             eprintln!("Error ending AtRuleDest: {err}");
@@ -392,6 +406,7 @@ impl CssDestination for AtMediaDest<'_> {
     }
 
     fn push_import(&mut self, import: Import) {
+        self.flush_rule();
         self.body.push(import.into());
     }
 
@@ -404,6 +419,9 @@ impl CssDestination for AtMediaDest<'_> {
     }
 
     fn push_item(&mut self, item: Item) -> Result {
+        if !matches!(item, Item::Separator) {
+            self.flush_rule();
+        }
         self.body.push(match item {
             Item::Comment(c) => c.into(),
             Item::Import(i) => i.into(),
@@ -439,6 +457,17 @@ impl CssDestination for AtMediaDest<'_> {
         } else {
             Err(Invalid::GlobalCustomProperty)
         }
+    }
+}
+
+/// If `rule` has collected anything, push it to `body` and continue
+/// with a fresh rule for the same selectors.
+fn flush_rule(rule: &mut Option<Rule>, body: &mut Vec<AtRuleBodyItem>) {
+    if let Some(rule) = rule
+        && !rule.body.is_empty()
+    {
+        let fresh = Rule::new(rule.selectors.clone());
+        body.push(std::mem::replace(rule, fresh).into());
     }
 }
 
